@@ -116,10 +116,12 @@ World == <<
   C("lanelet_left",   "none", <<SC, NET, L1>>, << <<0, 2>>, <<4, 2>>, <<8, 3>> >>, <<>>),
   C("lanelet_center", "none", <<SC, NET, L1>>, << <<0, 1>>, <<4, 1>>, <<8, 2>> >>, <<>>),
   C("lanelet_right",  "none", <<SC, NET, L1>>, << <<0, 0>>, <<4, 0>>, <<8, 1>> >>, <<>>),
+  C("lanelet_polygon", "none", <<SC, NET, L1>>, << <<0, 0>>, <<0, 2>>, <<4, 2>>, <<8, 3>>, <<8, 1>>, <<4, 0>> >>, <<>>),
   C("stop_line",      "none", <<SC, NET, L1, <<"stop_line", "-">> >>, << <<8, 1>>, <<8, 3>> >>, <<>>),
   C("lanelet_left",   "none", <<SC, NET, L2>>, << <<8, 3>>, <<12, 5>> >>, <<>>),
   C("lanelet_center", "none", <<SC, NET, L2>>, << <<8, 2>>, <<12, 4>> >>, <<>>),
   C("lanelet_right",  "none", <<SC, NET, L2>>, << <<8, 1>>, <<12, 3>> >>, <<>>),
+  C("lanelet_polygon", "none", <<SC, NET, L2>>, << <<8, 1>>, <<8, 3>>, <<12, 5>>, <<12, 3>> >>, <<>>),
   C("sign",           "none", <<SC, NET, <<"sign", "11">> >>, << <<4, -1>> >>, <<>>),
   C("light",          "none", <<SC, NET, <<"light", "12">> >>, << <<8, 4>> >>, <<>>),
   C("static_init",    "static",  <<SC, OS21, ST>>, << <<2, 1>> >>, << <<3, 4, 5>> >>),
@@ -127,6 +129,8 @@ World == <<
   C("trajectory_state", "dynamic", <<SC, OD22, PRED, TRAJ, S("0")>>, << <<2, 1>> >>, << <<1, 0, 1>> >>),
   C("trajectory_state", "dynamic", <<SC, OD22, PRED, TRAJ, S("1")>>, << <<4, 1>> >>, << <<4, 3, 5>> >>),
   C("trajectory_state", "dynamic", <<SC, OD22, PRED, TRAJ, S("2")>>, << <<6, 2>> >>, << <<3, 4, 5>> >>),
+  C("trajectory_region", "dynamic", <<SC, OD22, PRED, TRAJ, S("3")>>, << <<8, 3>> >>, <<>>),
+  C("trajectory_ori_interval", "dynamic", <<SC, OD22, PRED, TRAJ, S("3")>>, <<>>, << <<4, 3, 5>>, <<3, 4, 5>> >>),
   C("dynamic_init",   "dynamic", <<SC, OD23, ST>>, << <<1, -3>> >>, << <<0, 1, 1>> >>),
   C("occ_rect",       "dynamic", <<SC, OD23, PRED, OCC("0"), <<"shape_rect", "-">> >>, << <<3, -3>> >>, << <<4, 3, 5>> >>),
   C("occ_circle",     "dynamic", <<SC, OD23, PRED, OCC("1"), <<"shape_circle", "-">> >>, << <<5, -3>> >>, <<>>),
@@ -151,7 +155,7 @@ World == <<
   C("goal_shape",     "none", <<PPS, PP32, GOAL, S("0")>>, << <<-6, -6>> >>, << <<1, 0, 1>> >>)
 >>
 (* components whose points form a polygon (signed area law) *)
-IsPoly(c) == c.kind \in {"occ_polygon", "goal_lanelet"} \/ (c.kind \in {"env_shape", "phantom_occ", "goal_shape"} /\ Len(c.pts) >= 3)
+IsPoly(c) == c.kind \in {"occ_polygon", "goal_lanelet", "lanelet_polygon"} \/ (c.kind \in {"env_shape", "phantom_occ", "goal_shape"} /\ Len(c.pts) >= 3)
 
 WorldOf(mix) == SelectSeq(World, LAMBDA c : c.role = "none" \/ c.role \in mix)
 Kinds == {World[i].kind : i \in DOMAIN World}
